@@ -44,7 +44,14 @@ Definition step_C08 (c : pcase) (so_enforced : bool) (prev : snapshot) (e : even
                            | OClockSetProps _ => state_of sn p =? 9
                            | _ => true
                            end) op) (all_ports c) in
-  if one_slave && mo_ok && so_ok && role_ok then Some enforced' else None.
+  (* the role predicates the daemon acts on agree with the port state:
+     Port::is_steering() (which clock main.rs lets the port steer) iff slave,
+     Port::is_master() iff master *)
+  let flags_ok :=
+    (length (sn_roles sn) =? length (sn_states sn))%nat
+    && forallb (fun sr => bool_eqb (fst (snd sr)) (fst sr =? 9) && bool_eqb (snd (snd sr)) (fst sr =? 6))
+               (combine (sn_states sn) (sn_roles sn)) in
+  if one_slave && mo_ok && so_ok && role_ok && flags_ok then Some enforced' else None.
 
 Definition ok_C08 (c : pcase) : bool :=
   walk (step_C08 c) (ic_slave_only (su_config (pc_setup c))) (init_snap c) (pc_events c) (pc_trace c).
